@@ -8,6 +8,19 @@ class CutPath(Exception):
     """The path ends at a cut point (its obligations have been recorded)."""
 
 
+def _safe_inv(fn, *a):
+    """Evaluate an invariant; a failure of the annotation itself makes the obligation undecided, never a crash."""
+    from .sym import Infeasible
+    try:
+        return fn(*a)
+    except (Infeasible, CutPath):
+        raise
+    except OutOfSubset:
+        raise
+    except Exception as exc:
+        raise OutOfSubset('loop annotation not evaluable on this path: %r' % (exc,))
+
+
 class JoinList:
     """A list of byte strings the executor tracks only by its concatenation
     (the only uses are append and b''.join)."""
@@ -42,7 +55,7 @@ class CutFor:
         items = list(iterable)
         n = len(items)
         tag = 'loop@%d' % node.lineno
-        for lab, goal, exact in self.inv(ip, fr, 0):
+        for lab, goal, exact in _safe_inv(self.inv, ip, fr, 0):
             st.oblige('%s#initiation:%s' % (tag, lab), goal, exact=exact)
         k = n
         for j in range(n):
@@ -59,7 +72,7 @@ class CutFor:
             pass
         except _Break:
             raise OutOfSubset('break inside a cut loop')
-        for lab, goal, exact in self.inv(ip, fr, k + 1):
+        for lab, goal, exact in _safe_inv(self.inv, ip, fr, k + 1):
             st.oblige('%s#preservation[%d]:%s' % (tag, k, lab), goal, exact=exact)
         raise CutPath()
 
@@ -99,7 +112,7 @@ class CutWhile:
         t0 = ip.eval(node.test, fr)
         if (isinstance(t0, bool) and not t0) or (not isinstance(t0, bool) and hasattr(t0, 't') and not st.can(t0.t)):
             return
-        for lab, goal, exact in self.inv(ip, fr):
+        for lab, goal, exact in _safe_inv(self.inv, ip, fr):
             st.oblige('%s#initiation:%s' % (tag, lab), goal, exact=exact)
         self.havoc(ip, fr)
         if not st.truth(ip.eval(node.test, fr), '%s#test' % tag):
@@ -112,7 +125,7 @@ class CutWhile:
             return
         except _Continue:
             pass
-        for lab, goal, exact in self.inv(ip, fr):
+        for lab, goal, exact in _safe_inv(self.inv, ip, fr):
             st.oblige('%s#preservation:%s' % (tag, lab), goal, exact=exact)
         st.oblige('%s#variant-decreases' % tag, I(self.variant(ip, fr)) < I(v0))
         raise CutPath()
@@ -148,7 +161,7 @@ class CutSeqFor:
             raise OutOfSubset('loop annotation does not apply to this iterable')
         tag = 'loop@%d' % node.lineno
         wire.seq_facts(st, seq)
-        for lab, goal, exact in self.inv(ip, fr, seq):
+        for lab, goal, exact in _safe_inv(self.inv, ip, fr, seq):
             st.oblige('%s#initiation:%s' % (tag, lab), goal, exact=exact)
         rem = st.fresh('remaining', ObjS)
         wire.seq_facts(st, rem)
@@ -164,7 +177,7 @@ class CutSeqFor:
                 raise OutOfSubset('break inside a cut loop')
             nxt = wire.seq_tail(rem)
             wire.seq_facts(st, nxt)
-            for lab, goal, exact in self.inv(ip, fr, nxt):
+            for lab, goal, exact in _safe_inv(self.inv, ip, fr, nxt):
                 st.oblige('%s#preservation:%s' % (tag, lab), goal, exact=exact)
             st.oblige('%s#variant-decreases' % tag, z3.And(wire.seq_len(nxt) < wire.seq_len(rem), wire.seq_len(rem) >= 0))
             raise CutPath()
